@@ -22,6 +22,10 @@ def main(argv):
         return 0
     if cmd == "replay":
         return runner.replay(argv[1])
+    if cmd == "digest":
+        from . import selftest
+
+        return selftest.digest_cmd(argv[1], int(argv[2]) if len(argv) > 2 else 100, int(os.environ.get("VERIF_SEED", "0") or 0))
     if cmd.startswith("selftest"):
         from . import selftest
 
